@@ -27,4 +27,4 @@ for j in jobs:
             print("--- impl"); print("\n".join(il[max(0,i-12):i+6]))
             print("--- model"); print("\n".join(ml[max(0,i-12):i+6]))
         for p in sys.argv[2:]:
-            print("oracle", p, oracles.check(p, j.L, j.K, lines, il))
+            print("oracle", p, oracles.check(p, j.L, j.K, lines, ib.get(sid, [])))
